@@ -1,6 +1,7 @@
 package pkglint
 
 import (
+	"errors"
 	"os"
 	"path"
 	"path/filepath"
@@ -391,6 +392,10 @@ func (p CurrPath) Chmod(mode os.FileMode) error {
 }
 
 func (p CurrPath) ReadDir() ([]os.DirEntry, error) {
+	// Opening a FIFO blocks until somebody opens it for writing.
+	if st, err := os.Stat(string(p)); err == nil && !st.IsDir() {
+		return nil, &os.PathError{Op: "readdir", Path: string(p), Err: errors.New("not a directory")}
+	}
 	return os.ReadDir(string(p))
 }
 
@@ -412,6 +417,10 @@ func (p CurrPath) ReadPaths() []CurrPath {
 func (p CurrPath) Open() (*os.File, error) { return os.Open(string(p)) }
 
 func (p CurrPath) ReadString() (string, error) {
+	// Reading from a FIFO or a device may block forever or never end.
+	if st, err := os.Stat(string(p)); err == nil && !st.Mode().IsRegular() && !st.IsDir() {
+		return "", &os.PathError{Op: "read", Path: string(p), Err: errors.New("not a regular file")}
+	}
 	bytes, err := os.ReadFile(string(p))
 	return string(bytes), err
 }
